@@ -685,6 +685,10 @@ class ExecSim(object):
                     self.bad('C08', 'canceled_at_intake:resources_released_%d_times' % e['unsched'],
                              '%s was granted resources by the scheduler, is canceled at the '
                              'executor\'s intake, unschedule published %d times' % (uid, e['unsched']))
+                    self.bad('C03', 'resources_released_%s:canceled_at_intake'
+                             % ('never' if e['unsched'] == 0 else 'twice'),
+                             '%s holds a placement when it is canceled at the executor\'s intake; '
+                             'unschedule published %d times' % (uid, e['unsched']))
                 continue
             if uid in self.must_cancel and e['pushed_tasks']:
                 ts = e['pushed_tasks'][0].get('target_state')
